@@ -257,6 +257,23 @@ class Facts:
         return None, {}
 
 
+def generic_params(genstr):
+    """Names of the type (and const) parameters of a generics string `<'a, T: Bound, const N: usize>`, lifetimes left out."""
+    g = (genstr or "").strip()
+    if g.startswith("<") and g.endswith(">"):
+        g = g[1:-1]
+    out = []
+    for part in split_generics(g):
+        part = part.strip()
+        if not part or part.startswith("'"):
+            continue
+        part = re.sub(r"^const\s+", "", part)
+        m = re.match(r"[A-Za-z_][A-Za-z0-9_]*", part)
+        if m:
+            out.append(m.group(0))
+    return out
+
+
 def split_generics(s):
     out, depth, cur = [], 0, ""
     for c in s:
